@@ -424,6 +424,26 @@ func genOrder(r *rng) (*AWf, map[string]Behaviour, map[string]any) {
 			}
 		}
 	}
+	// one more family in every case: stopped DURING a slow deployment through the engine-wide deployer (no deploy section)
+	// while everything else the step needs is already there (no enabled expression or one on the input, literal step input):
+	// when the deployment ends only the stop stands between the step and its start
+	{
+		f := map[string]AIn{"stop_if": expr("$.steps.src0.outputs")}
+		if r.chance(1, 2) {
+			f["enabled"] = expr("$.input.ft")
+		}
+		b := Behaviour{Outcome: "success", DeployDelayMs: []int{250, 750}[r.intn(2)], DeployIgnoresCtx: true}
+		for c := 0; c < 4; c++ {
+			id := fmt.Sprintf("v%d", v)
+			v++
+			ff := map[string]AIn{}
+			for k, x := range f {
+				ff[k] = x
+			}
+			wf.Steps = append(wf.Steps, c04Step(id, ff))
+			beh[id] = b
+		}
+	}
 	c04Anchor(wf, beh, 1400)
 	for i := range wf.Steps {
 		// a hanging victim must not hold up the end of the run
